@@ -52,7 +52,7 @@ fn parse_string(lexer: &mut Lexer<'_, Token>) -> Result<(), LexerError> {
 
 #[cfg(not(tarpaulin_include))]
 fn check_string(value: &str, span: &Span, diags: &mut Vec<Diagnostic>) {
-    let mut it = value.chars().enumerate();
+    let mut it = value.char_indices();
     while let Some((i, c)) = it.next() {
         match c {
             '\\' => match it.next() {
@@ -72,13 +72,13 @@ fn check_string(value: &str, span: &Span, diags: &mut Vec<Diagnostic>) {
                         }
                     }
                 }
-                Some((j, _)) => {
+                Some((j, escaped)) => {
                     diags.push(
                         Diagnostic::error()
                             .with_message("invalid escape sequence")
                             .with_labels(vec![Label::primary(
                                 (),
-                                span.start + j - 1..span.start + j + 1,
+                                span.start + j - 1..span.start + j + escaped.len_utf8(),
                             )]),
                     );
                 }
